@@ -241,6 +241,16 @@ CLAIMED = {
              "and compared with sh_offset/sh_addr, and p_align with seg_alignment.",
         technique="Coq proof (arithmetic of align_up/align_modulo over folds, chains of extents) + structural predicate on real outputs + model re-layout of every LOAD segment",
         design_ref="DESIGN.md §3 C04"),
+    "C35": dict(
+        text="S1: state machine of wild's jobserver use (activate_thread_pool's try_acquire loop until the pipe is empty, pool size = held + 1, --threads bypasses the jobserver, drop(ThreadPool) "
+             "on the Ok, Err and unwinding paths gives every token back) composed with an environment of other jobs that take and return tokens at any step. Theorems over every interleaving: "
+             "tokens are conserved at every step; threads <= held + 1 whenever the jobserver decides; after exit on success, error or panic wild holds nothing and the pipe has the initial "
+             "count minus what other jobs still hold; the acquisition loop terminates. A refutation shows the loss when the process is killed (outside the property's quantifier).",
+        note="Tie: a real jobserver (pipe fds and fifo style) with N tokens is handed to the real binary through MAKEFLAGS; success / undefined symbol / injected error / injected panic, forked and "
+             "--no-fork, with --threads and with a competing job; tokens held and task count are sampled at a pause point and compared with the model; after wild and its background worker "
+             "are gone (EOF on an inherited liveness pipe) the pipe must hold exactly N tokens.",
+        technique="Coq proof (invariant over all interleavings of wild steps and environment steps) + runs of the real binary under a real jobserver",
+        design_ref="DESIGN.md §3 C35"),
     "C10": dict(
         text="S1: Gallina model of what wild writes for unwinding (an FDE is kept iff the section its pc-begin points into was loaded and is not empty; one search-table entry per kept FDE with "
              "hdr-relative signed start and FDE pointer; the table sorted by the signed start) and of the consumer (the last entry with start <= pc, then the range check — what libgcc's binary "
